@@ -431,13 +431,12 @@ func runRelay(c *Ctx) error {
 	if err != nil {
 		return err
 	}
-	fsBefore := stallFSDirs()
 	defer func() {
-		for d := range stallFSDirs() {
-			if !fsBefore[d] {
-				_ = os.Remove(d)
-			}
+		// only the directories named on this engine's own connections (fs_own_dirs.go), never a glob of /tmp
+		if n := ownFS.cleanup(); n > 0 {
+			c.Res.Distribution["fs-dir-left-behind-removed"] += n
 		}
+		c.Res.Distribution["fs-dir-names-seen-on-own-wire"] = len(ownFS.all())
 	}()
 	obligation := func(label, what string) {
 		// a precondition of the engine's own coverage claim failed: reported as a broken
